@@ -507,7 +507,25 @@ func (tdsChan *Channel) SendPackage(ctx context.Context, pkg Package) error {
 }
 
 func (tdsChan *Channel) sendPackets(ctx context.Context, onlyFull bool) error {
-	defer tdsChan.queueTx.DiscardUntilCurrentPosition()
+	if onlyFull {
+		// The packet the position points to is held back even if it
+		// is full - only the last packet of a message may carry the
+		// EOM status, and whether it is the last packet is only known
+		// once the remaining packets are sent.
+		// DiscardUntilCurrentPosition cannot be used here as it also
+		// discards an exhausted packet at the position.
+		defer func() {
+			queue := tdsChan.queueTx
+			queue.Lock()
+			defer queue.Unlock()
+			if queue.indexPacket <= len(queue.queue) {
+				queue.queue = queue.queue[queue.indexPacket:]
+				queue.indexPacket = 0
+			}
+		}()
+	} else {
+		defer tdsChan.queueTx.DiscardUntilCurrentPosition()
+	}
 
 	for i, packet := range tdsChan.queueTx.queue {
 		select {
@@ -517,17 +535,19 @@ func (tdsChan *Channel) sendPackets(ctx context.Context, onlyFull bool) error {
 			return fmt.Errorf("connection context is closed: %w", tdsChan.tdsConn.ctx.Err())
 		default:
 			// Only the last packet should not be full.
-			if i == tdsChan.queueTx.indexPacket && tdsChan.queueTx.indexData < tdsChan.tdsConn.PacketBodySize() {
+			if i == tdsChan.queueTx.indexPacket {
 				if onlyFull {
-					// Packet is not exhausted and only exhausted packets
-					// should be sent. Return.
+					// Only packets in front of the position should be
+					// sent. Return.
 					return nil
 				}
 
-				// Packet is not exhausted but should be sent. Adjust header
-				// length
+				// This is the last packet of the message. Adjust header
+				// length and mark it as such - an exhausted packet would
+				// not be recognized as last packet by sendPacket.
 				packet.Header.Length = uint16(PacketHeaderSize + tdsChan.queueTx.indexData)
 				packet.Data = packet.Data[:tdsChan.queueTx.indexData]
+				packet.Header.Status |= TDS_BUFSTAT_EOM
 			}
 
 			// TODO maybe check if data is empty - could be an issue
